@@ -378,6 +378,12 @@ pub fn print_expr(e: &E, n: &Names) -> String {
             // of relational operators are therefore always printed with explicit parentheses, a
             // dedicated probe in C03 keeps confirming the finding.
             let lmin = if p == 9 { p + 1 } else { p };
+            // Same dependency: a `<` followed later by `>`/`>>` can be taken for type arguments
+            // (`a < b >> 2`, `f(a < b, c > (d))`). `<` comparisons are printed self-contained:
+            // in parentheses, with a parenthesised right operand unless it is a leaf.
+            if matches!(op, BinOp::Lt) {
+                return format!("({} < {})", sub(l, 13), sub(r, 13));
+            }
             format!("{} {} {}", sub(l, lmin), op.text(), sub(r, p + 1))
         }
         E::Ternary(c, a, b) => format!("{} ? {} : {}", sub(c, 3), sub(a, 2), sub(b, 2)),
